@@ -69,15 +69,25 @@ impl Poly {
         self
     }
     fn eval<D: DualNum<f64>>(&self, x: &[D]) -> D {
+        // the accumulator starts as a constant (no derivative parts) and every second term uses the
+        // in-place operators, as user code and nalgebra's folds do
         let mut s = D::from(0.0);
-        for t in &self.terms {
+        for (k, t) in self.terms.iter().enumerate() {
             let mut p = D::from(t.c as f64);
             for (i, &d) in t.e.iter().enumerate() {
                 for _ in 0..d {
-                    p = p * x[i].clone();
+                    if k % 2 == 0 {
+                        p = p * x[i].clone();
+                    } else {
+                        p *= x[i].clone();
+                    }
                 }
             }
-            s = s + p;
+            if k % 2 == 0 {
+                s = s + p;
+            } else {
+                s += p;
+            }
         }
         if let Some((c0, l)) = &self.den {
             let mut q = D::from(*c0 as f64);
@@ -610,6 +620,48 @@ fn scalars(ctx: &mut Ctx) {
             ctx.check("second_partial_derivative", "nested T=Dual64", &format!("{name}.eps"), got.eps, dx * p.d(&vx, &pt) + dy * p.d(&vy, &pt), c.clone());
         }
     }
+    // a two-argument function through the vector and mixed-partial drivers: theta = atan2(y, x) in
+    // both of its branches (|y| > |x| and |y| < |x|) and all four quadrants; analytic derivatives
+    // theta_x = -y/r^2, theta_y = x/r^2, theta_xx = 2xy/r^4 = -theta_yy, theta_xy = (y^2 - x^2)/r^4
+    for &(xv, yv) in &[(0.4, 1.3), (-0.4, 1.3), (1.3, -0.4), (-1.3, -0.4), (0.4, -1.3), (-1.3, 0.4)] {
+        let r2: f64 = xv * xv + yv * yv;
+        let (tx, ty) = (-yv / r2, xv / r2);
+        let (txx, txy) = (2.0 * xv * yv / (r2 * r2), (yv * yv - xv * xv) / (r2 * r2));
+        let tol = 64.0 * 1.1e-16 * (1.0 + 1.0 / r2 + 1.0 / (r2 * r2)) * 4.0;
+        let shape = format!("atan2 at ({xv},{yv})");
+        let dd = |v: f64| DD::f(v);
+        let (_, g) = gradient(|v: SVector<DualSVec64<2>, 2>| v[1].clone().atan2(v[0].clone()), SVector::<f64, 2>::new(xv, yv));
+        ctx.check_tol("gradient", &shape, "g[0]", g[0], dd(tx), tol);
+        ctx.check_tol("gradient", &shape, "g[1]", g[1], dd(ty), tol);
+        let (_, g, h) = hessian(|v: DVector<Dual2DVec64>| v[1].clone().atan2(v[0].clone()), DVector::from_vec(vec![xv, yv]));
+        ctx.check_tol("hessian", &shape, "g[0]", g[0], dd(tx), tol);
+        ctx.check_tol("hessian", &shape, "g[1]", g[1], dd(ty), tol);
+        ctx.check_tol("hessian", &shape, "h[(0,0)]", h[(0, 0)], dd(txx), tol);
+        ctx.check_tol("hessian", &shape, "h[(0,1)]", h[(0, 1)], dd(txy), tol);
+        ctx.check_tol("hessian", &shape, "h[(1,0)]", h[(1, 0)], dd(txy), tol);
+        ctx.check_tol("hessian", &shape, "h[(1,1)]", h[(1, 1)], dd(-txx), tol);
+        let (_, fx, fy, fxy) = second_partial_derivative(|x: HyperDual64, y: HyperDual64| y.atan2(x), xv, yv);
+        ctx.check_tol("second_partial_derivative", &shape, "dx", fx, dd(tx), tol);
+        ctx.check_tol("second_partial_derivative", &shape, "dy", fy, dd(ty), tol);
+        ctx.check_tol("second_partial_derivative", &shape, "dxdy", fxy, dd(txy), tol);
+        let (_, px, py, pxy) = partial_hessian(
+            |x: SVector<HyperDualSVec64<1, 1>, 1>, y: SVector<HyperDualSVec64<1, 1>, 1>| y[0].clone().atan2(x[0].clone()),
+            SVector::<f64, 1>::new(xv),
+            SVector::<f64, 1>::new(yv),
+        );
+        ctx.check_tol("partial_hessian", &shape, "dx[0]", px[0], dd(tx), tol);
+        ctx.check_tol("partial_hessian", &shape, "dy[0]", py[0], dd(ty), tol);
+        ctx.check_tol("partial_hessian", &shape, "dxdy[(0,0)]", pxy[(0, 0)], dd(txy), tol);
+        let (_, j) = jacobian(
+            |v: SVector<DualSVec64<2>, 2>| SVector::<DualSVec64<2>, 2>::from([(v[0].clone() * v[0].clone() + v[1].clone() * v[1].clone()).sqrt(), v[1].clone().atan2(v[0].clone())]),
+            SVector::<f64, 2>::new(xv, yv),
+        );
+        let r = r2.sqrt();
+        ctx.check_tol("jacobian", &shape, "j[(0,0)]", j[(0, 0)], dd(xv / r), tol);
+        ctx.check_tol("jacobian", &shape, "j[(0,1)]", j[(0, 1)], dd(yv / r), tol);
+        ctx.check_tol("jacobian", &shape, "j[(1,0)]", j[(1, 0)], dd(tx), tol);
+        ctx.check_tol("jacobian", &shape, "j[(1,1)]", j[(1, 1)], dd(ty), tol);
+    }
     // non-polynomial integrands against the Taylor coefficients of the reference
     use Op::*;
     let funs: [(Op, &[f64]); 12] = [
@@ -691,7 +743,7 @@ fn main() {
         mode: cli.mode,
         seed: cli.seed,
         start,
-        rule: "the twenty public drivers x input lengths n = 0..6 and output lengths m = 1..6 (static where the type system allows: gradient/hessian n = 1..6, jacobian all (m,n) in 1..6 x 1..6, partial_hessian (m,n) <= 4 and (6,1),(6,6),(1,6); dynamic for all lengths incl. 0) x two integer points x asymmetric integer polynomials containing every monomial of degree <= 3 with pairwise distinct coefficients (so every partial up to order 3 is non-zero and no two are equal) and, for every second function, that polynomial divided by a linear form equal to 2 at the point (quotient rules; all values stay small dyadic rationals); all n^3 index triples of third_partial_derivative_vec for n <= 5; try_ variants with unit-struct, String and integer errors; constant / partially constant functions (absent parts); nested use T = Dual64 (gradient, first/second/third_derivative, second_partial_derivative: the eps parts carry one more derivative order); non-polynomial integrands against reference Taylor coefficients. Non-trivial = a derivative entry whose exact value is neither 0 nor 1.".into(),
+        rule: "the twenty public drivers x input lengths n = 0..6 and output lengths m = 1..6 (static where the type system allows: gradient/hessian n = 1..6, jacobian all (m,n) in 1..6 x 1..6, partial_hessian (m,n) <= 4 and (6,1),(6,6),(1,6); dynamic for all lengths incl. 0) x two integer points x asymmetric integer polynomials containing every monomial of degree <= 3 with pairwise distinct coefficients (so every partial up to order 3 is non-zero and no two are equal) and, for every second function, that polynomial divided by a linear form equal to 2 at the point (quotient rules; all values stay small dyadic rationals); all n^3 index triples of third_partial_derivative_vec for n <= 5; try_ variants with unit-struct, String and integer errors; constant / partially constant functions (absent parts); nested use T = Dual64 (gradient, first/second/third_derivative, second_partial_derivative: the eps parts carry one more derivative order); non-polynomial integrands against reference Taylor coefficients; polar coordinates (sqrt, atan2 in both branches and all quadrants) through gradient, hessian, jacobian, partial_hessian and second_partial_derivative. Non-trivial = a derivative entry whose exact value is neither 0 nor 1.".into(),
         assumptions: vec!["expected values by symbolic differentiation of the coefficient tables in integer arithmetic (Leibniz rule for the quotient by the linear form); all values are small integers or dyadic rationals, so equality is exact".into()],
         extra: json!({"oracle": "exact integer partial derivatives; Err identity; Ok results bit-equal to the infallible variants"}),
         exhaustive: true,
